@@ -2130,7 +2130,14 @@ def rule_cache(repo):
     return r
 
 
-RULES = [rule_traversal, rule_leaf, rule_width, rule_mirror, rule_eqhash, rule_init, rule_wiring, rule_concat, rule_cache]
+def rule_leaf_values(repo):
+    """to_bits concatenates the leaves' stored values: every leaf value (also one written with <<= and flipped) must lie in
+    [0, 2^n) or the packed value is corrupted above that field (shared with C04: R-C04-range over every writer of _uint/_next)"""
+    from rules.c04 import rule_range
+    return rule_range(repo)
+
+
+RULES = [rule_traversal, rule_leaf, rule_width, rule_mirror, rule_eqhash, rule_init, rule_wiring, rule_concat, rule_cache, rule_leaf_values]
 
 
 # ---------------------------------------------------------------------------
